@@ -1,4 +1,4 @@
-import QuiverModel.Lemmas.Resources.Cleanup
+import QuiverModel.Lemmas.Resources.Reach
 /-!
 # C14 — a resource is usable only by its single owner and is closed exactly once
 
@@ -292,5 +292,362 @@ theorem closed_on_reported_termination_partial (n : Nat) (h : List Event) (a p :
       obtain ⟨p', hp', hg⟩ := (mem_cleanupList hn).1 hc
       rw [hq] at hg; cases hg
       exact hnq hp'
+
+/-! ## created_owned_by_creator -/
+
+/-- What a step appends to the commands, with what a "here is your new resource" completion
+implies. -/
+theorem created_aux (s : Sys) (ev : Event) :
+    ∃ l, (step s ev).env.out = s.env.out ++ l ∧
+      ∀ p r, Cmd.effectCompletion p (.okRes r) ∈ l →
+        ownGet (step s ev).env.owner r = some p ∧ s.env.backend.nextRid ≤ r := by
+  cases ev with
+  | start => exact ⟨[.startProcess (s.env.nextPid % s.env.nWorkers) s.env.nextPid], rfl, by simp⟩
+  | terminate p => exact ⟨[], by simp [step], by simp⟩
+  | results a rs => exact ⟨[], by simp [step, handleProcessResults_out], by simp⟩
+  | send a t v =>
+    simp only [step, handleDeliver]
+    split
+    · exact ⟨[], by simp, by simp⟩
+    · exact ⟨[.deliverMessage t], rfl, by simp⟩
+  | spawn c caps arg =>
+    simp only [step, handleSpawn]
+    split
+    · exact ⟨[_], rfl, by simp⟩
+    · refine ⟨[Cmd.spawnProcess ((colocate s.env.owner s.env.router (caps ++ [arg])).getD
+          (s.env.nextPid % s.env.nWorkers)) s.env.nextPid, Cmd.notifySpawn c s.env.nextPid], ?_, ?_⟩ <;> simp
+  | request p e w =>
+    simp only [step]
+    by_cases hv : violatesOwnership s.env.owner p e = true
+    · rw [handleEffectRequest_rejected _ _ _ _ hv]
+      rcases reportEffectError_out_cases s.env p with h | h
+      · exact ⟨[], by simp [h], by simp⟩
+      · exact ⟨[_], h, by simp⟩
+    · have hv' : violatesOwnership s.env.owner p e = false := by simpa using hv
+      have hown := handleEffectRequest_owner s.env p e w
+      rw [handleEffectRequest_accepted _ _ _ _ hv'] at hown ⊢
+      simp only [hv', Bool.false_eq_true, ↓reduceIte] at hown
+      cases hrep : (s.env.backend.execute p e w).2 with
+      | submitted => exact ⟨[], by simp, by simp⟩
+      | failed =>
+        simp only
+        rcases reportEffectError_out_cases { s.env with backend := (s.env.backend.execute p e w).1 } p with h | h
+        · exact ⟨[], by simp [h], by simp⟩
+        · exact ⟨[_], h, by simp⟩
+      | immediate res =>
+        simp only [hrep] at hown ⊢
+        rcases handleEffectCompletion_out_cases { s.env with backend := (s.env.backend.execute p e w).1 } p res with h | h
+        · exact ⟨[], by simp [h], by simp⟩
+        · refine ⟨[_], h, ?_⟩
+          intro p' r hm
+          simp only [List.mem_singleton, Cmd.effectCompletion.injEq] at hm
+          obtain ⟨rfl, rfl⟩ := hm
+          obtain ⟨h1, _⟩ := execute_reply_okRes hrep
+          refine ⟨?_, by rw [h1]; exact Nat.le_refl _⟩
+          rw [hown, ownGet_regOf]; simp
+  | completions n =>
+    simp only [step]
+    obtain ⟨l, hl, hsub⟩ := handleCompletions_out s.env n
+    refine ⟨l, hl, ?_⟩
+    intro p r hm
+    obtain ⟨p', r', h1, h2⟩ := hsub _ hm
+    simp only [Cmd.effectCompletion.injEq] at h1
+    obtain ⟨rfl, rfl⟩ := h1
+    have hids := processCompletions_resIds s.env.backend n
+    refine ⟨?_, (hids.2 r (mem_resIds.2 ⟨p, h2⟩)).1⟩
+    rw [handleCompletions_owner]
+    exact ownGet_regAll_of_mem hids.1 h2
+
+/-- **created_owned_by_creator.** In every state satisfying the invariant (every state reached by a
+history without forged handles: `inv_run`), whenever a step makes the environment tell a process
+`p` "your effect completed and created resource `r`" (`EffectCompletion{p, Ok(Resource r)}` — the
+synchronous creations inside `handle_effect_request` as well as accept/connect completions
+collected later, several per step), then after the step `r` is registered to `p`, and before the
+step `r` was registered to nobody (the id is fresh: not below the allocator). -/
+theorem created_owned_by_creator (s : Sys) (hs : Inv s) (ev : Event) (l : List Cmd)
+    (hl : (step s ev).env.out = s.env.out ++ l) (p : Pid) (r : Rid)
+    (hc : Cmd.effectCompletion p (.okRes r) ∈ l) :
+    ownGet (step s ev).env.owner r = some p ∧ ownGet s.env.owner r = none := by
+  obtain ⟨l', hl', h⟩ := created_aux s ev
+  have : l = l' := List.append_cancel_left (hl.symm.trans hl')
+  subst this
+  obtain ⟨h1, h2⟩ := h p r hc
+  refine ⟨h1, ?_⟩
+  rw [ownGet_eq_none_iff]
+  intro hk
+  exact absurd (hs.keys_lt r hk) (Nat.not_lt.2 h2)
+
+/-- The invariant holds after every history whose handles exist (in particular every well-formed
+history). -/
+theorem reachable_inv (n : Nat) (h : List Event) (hw : handlesFrom (init n) h = true) :
+    Inv (run (init n) h) := inv_run (inv_init n) h hw
+
+example :
+    let s := run (init 2) [.start, .open 0]
+    (step s (.open 0)).env.out = s.env.out ++ [.effectCompletion 0 (.okRes 2)] ∧
+    ownGet (step s (.open 0)).env.owner 2 = some 0 := by decide
+
+-- accept: the new socket is registered when the completion is collected, to the accepting process
+example :
+    let s := run (init 2) [.start, .request 0 { kind := .tcpListen } true,
+      .request 0 { kind := .tcpListenerAccept, rid := 1 } true]
+    ownGet s.env.owner 2 = none ∧ ownGet (step s (.completions 1)).env.owner 2 = some 0 := by decide
+
+/-! ## a registration changes hands only by a transfer event -/
+
+/-- **owner_unique, second half.** In every state satisfying the invariant: if a step changes the
+owner of a registered resource `r` from `p` to a different process `q`, the step is the delivery of
+a message containing `r` to `q`, or a spawn whose captures/argument contain `r` and `q` is the new
+process. No completion, request, cleanup or await can re-register an id to a second process. -/
+theorem owner_changes_only_by_transfer (s : Sys) (hs : Inv s) (ev : Event) (r : Rid) (p q : Pid)
+    (h0 : ownGet s.env.owner r = some p) (h1 : ownGet (step s ev).env.owner r = some q) (hne : q ≠ p) :
+    (∃ sender msg, ev = .send sender q msg ∧ r ∈ msg.resources) ∨
+    (∃ caller caps arg, ev = .spawn caller caps arg ∧ q = s.env.nextPid ∧
+      r ∈ resourcesList caps ++ arg.resources) := by
+  have hk : r ∈ ownKeys s.env.owner := (ownGet_isSome_iff _ _).1 (by simp [h0])
+  have hlt := hs.keys_lt r hk
+  have same : ownGet (step s ev).env.owner r = ownGet s.env.owner r → False := by
+    intro h; rw [h, h0] at h1; cases h1; exact hne rfl
+  cases ev with
+  | start => exact (same rfl).elim
+  | terminate x => exact (same rfl).elim
+  | send a t v =>
+    rw [transfer_moves_send] at h1
+    split at h1
+    · cases h1; exact .inl ⟨a, v, rfl, ‹_›⟩
+    · rw [h0] at h1; cases h1; exact (hne rfl).elim
+  | spawn c caps arg =>
+    rw [transfer_moves_spawn] at h1
+    split at h1
+    · cases h1; exact .inr ⟨c, caps, arg, rfl, rfl, ‹_›⟩
+    · rw [h0] at h1; cases h1; exact (hne rfl).elim
+  | results a rs =>
+    exfalso
+    simp only [step, handleProcessResults_owner, ownGet_eraseAll] at h1
+    split at h1
+    · cases h1
+    · rw [h0] at h1; cases h1; exact hne rfl
+  | completions n =>
+    exfalso; apply same
+    simp only [step, handleCompletions_owner]
+    apply ownGet_regAll_of_not_mem
+    intro hm
+    have := ((processCompletions_resIds s.env.backend n).2 r hm).1
+    exact absurd hlt (Nat.not_lt.2 this)
+  | request x e w =>
+    exfalso; apply same
+    simp only [step, handleEffectRequest_owner]
+    split
+    · rfl
+    · split
+      · rename_i res hres
+        rw [ownGet_regOf]
+        split
+        · rename_i hr; subst hr
+          obtain ⟨h2, _⟩ := execute_reply_okRes hres
+          rw [h2] at hlt
+          exact absurd hlt (Nat.lt_irrefl _)
+        · rfl
+      · rfl
+
+/-! ## closes: at most one effective close per id; at most one `close_resource` call per id -/
+
+/-- **effective close at most once.** After ANY history, no resource id has been effectively
+closed (removed from the backend's registry by an explicit close effect or by `close_resource`)
+more than once, and no effectively closed id is open. -/
+theorem effective_close_once (n : Nat) (h : List Event) :
+    (run (init n) h).env.backend.effClosed.Nodup ∧
+    ∀ r ∈ (run (init n) h).env.backend.effClosed, r ∉ (run (init n) h).env.backend.openSet := by
+  suffices ∀ s : Sys, BInv s.env.backend → BInv (run s h).env.backend from
+    ⟨(this _ (inv_init n).binv).eff_nodup, (this _ (inv_init n).binv).eff_not_open⟩
+  induction h with
+  | nil => intro s hs; exact hs
+  | cons ev rest ih => intro s hs; exact ih _ (step_binv s ev hs)
+
+/-- A transfer does not carry an id that `close_resource` has already been called for (a stale
+copy of a handle whose resource was cleaned up). -/
+def noStale (s : Sys) : Event → Bool
+  | .send _ _ msg => msg.resources.all (fun r => !s.env.backend.closeCalls.contains r)
+  | .spawn _ caps arg =>
+    (resourcesList caps ++ arg.resources).all (fun r => !s.env.backend.closeCalls.contains r)
+  | _ => true
+
+def noStaleFrom (s : Sys) : List Event → Bool
+  | [] => true
+  | ev :: rest => noStale s ev && noStaleFrom (step s ev) rest
+
+structure CInv (s : Sys) : Prop where
+  nodup : s.env.backend.closeCalls.Nodup
+  not_reg : ∀ r ∈ s.env.backend.closeCalls, r ∉ ownKeys s.env.owner
+
+theorem cinv_step {s : Sys} (hs : Inv s) (hc : CInv s) (ev : Event) (h2 : noStale s ev = true) :
+    CInv (step s ev) := by
+  have hcalls := step_closeCalls s ev
+  cases ev with
+  | results a rs =>
+    simp only at hcalls
+    refine ⟨?_, ?_⟩
+    · rw [hcalls]
+      refine List.nodup_append.2 ⟨hc.nodup, cleanupList_nodup hs.keys rs, ?_⟩
+      intro x hx y hy hxy
+      subst hxy
+      exact hc.not_reg x hx (cleanupList_sub_keys hs.keys hy)
+    · intro r hr
+      rw [hcalls, List.mem_append] at hr
+      simp only [step, handleProcessResults_owner, mem_ownKeys_eraseAll, not_and, Classical.not_not]
+      intro hk
+      rcases hr with hr | hr
+      · exact absurd hk (hc.not_reg r hr)
+      · exact hr
+  | start => exact ⟨by rw [hcalls]; exact hc.nodup, by intro r hr; rw [hcalls] at hr; exact hc.not_reg r hr⟩
+  | terminate p => exact ⟨by rw [hcalls]; exact hc.nodup, by intro r hr; rw [hcalls] at hr; exact hc.not_reg r hr⟩
+  | send a t v =>
+    refine ⟨by rw [hcalls]; exact hc.nodup, ?_⟩
+    intro r hr
+    rw [hcalls] at hr
+    simp only [step, handleDeliver_owner, mem_ownKeys_insertAll, not_or]
+    refine ⟨?_, hc.not_reg r hr⟩
+    intro hm
+    simp only [noStale, List.all_eq_true, Bool.not_eq_eq_eq_not, Bool.not_true,
+      List.contains_eq_mem, decide_eq_false_iff_not] at h2
+    exact h2 r hm hr
+  | spawn c caps arg =>
+    refine ⟨by rw [hcalls]; exact hc.nodup, ?_⟩
+    intro r hr
+    rw [hcalls] at hr
+    simp only [step, handleSpawn_owner, mem_ownKeys_insertAll, not_or]
+    refine ⟨?_, hc.not_reg r hr⟩
+    intro hm
+    simp only [noStale, List.all_eq_true, Bool.not_eq_eq_eq_not, Bool.not_true,
+      List.contains_eq_mem, decide_eq_false_iff_not] at h2
+    exact h2 r hm hr
+  | completions n =>
+    refine ⟨by rw [hcalls]; exact hc.nodup, ?_⟩
+    intro r hr
+    rw [hcalls] at hr
+    simp only [step, handleCompletions_owner, mem_ownKeys_regAll, not_or]
+    refine ⟨?_, hc.not_reg r hr⟩
+    intro hm
+    have := ((processCompletions_resIds s.env.backend n).2 r hm).1
+    exact absurd (hs.calls_lt r hr) (Nat.not_lt.2 this)
+  | request p e w =>
+    refine ⟨by rw [hcalls]; exact hc.nodup, ?_⟩
+    intro r hr
+    rw [hcalls] at hr
+    simp only [step, handleEffectRequest_owner]
+    split
+    · exact hc.not_reg r hr
+    · split
+      · rename_i res hres
+        rw [mem_ownKeys_regOf, not_or]
+        refine ⟨?_, hc.not_reg r hr⟩
+        intro hx; subst hx
+        obtain ⟨h3, _⟩ := execute_reply_okRes hres
+        have := hs.calls_lt r hr
+        rw [h3] at this
+        exact absurd this (Nat.lt_irrefl _)
+      · exact hc.not_reg r hr
+
+/-- **cleanup_closes_once.** Along every history whose handles exist and in which no transfer
+carries a stale copy of an already cleaned-up handle, `close_resource` is called at most once per
+resource id over the WHOLE history (`closedByCleanup` has no duplicates), and an id it has been
+called for is no longer registered. Each call happens only for a process reported complete
+(`cleanup_closes_once_step`). -/
+theorem cleanup_closes_once (n : Nat) (h : List Event) (hw : handlesFrom (init n) h = true)
+    (hst : noStaleFrom (init n) h = true) :
+    (run (init n) h).env.backend.closeCalls.Nodup ∧
+    ∀ r ∈ (run (init n) h).env.backend.closeCalls, ownGet (run (init n) h).env.owner r = none := by
+  suffices ∀ s : Sys, Inv s → CInv s → handlesFrom s h = true → noStaleFrom s h = true → CInv (run s h) by
+    have hc := this (init n) (inv_init n) ⟨by simp [init], by simp [init]⟩ hw hst
+    exact ⟨hc.nodup, fun r hr => (ownGet_eq_none_iff _ _).2 (hc.not_reg r hr)⟩
+  clear hw hst
+  induction h with
+  | nil => intro s _ hc _ _; exact hc
+  | cons ev rest ih =>
+    intro s hs hc hw hst
+    simp only [handlesFrom, noStaleFrom, Bool.and_eq_true] at hw hst
+    exact ih (step s ev) (inv_step hs ev hw.1) (cinv_step hs hc ev hst.1) hw.2 hst.2
+
+/-- Without the `noStale` hypothesis the statement about *calls* is false — of the model and of the
+code: a stale copy of a cleaned-up handle, sent on, registers the dead id again and the next cleanup
+passes it to `close_resource` a second time (a no-op in the backend: `effective_close_once` still
+holds). Witness: 0 opens r, sends it to 1; 1 ends and is awaited (close r); 0 sends its stale copy
+to 2; 2 ends and is awaited (close r again). -/
+def staleRecloseWitness : List Event :=
+  [.start, .start, .start, .open 0, .send 0 1 (.res 1), .terminate 1, .awaitReport 0 1,
+   .send 0 2 (.res 1), .terminate 2, .awaitReport 0 2]
+
+theorem close_called_twice_after_stale_transfer :
+    wfFrom (init 3) staleRecloseWitness = true ∧
+    (run (init 3) staleRecloseWitness).env.backend.closeCalls = [1, 1] ∧
+    (run (init 3) staleRecloseWitness).env.backend.effClosed = [1] := by decide
+
+/-! ## two more consequences of "cleanup only inside handle_process_results" and of "transfer is not
+restricted to the owner" (recorded as observations in notes/C14.md) -/
+
+/-- Second trigger of F10: a handle delivered to a process whose completion has ALREADY been
+reported (and cleaned up) is registered to the dead process and stays open. -/
+def lateArrivalWitness : List Event :=
+  [.start, .start, .open 0, .terminate 1, .awaitReport 0 1, .send 0 1 (.tuple [.other, .res 1])]
+
+theorem late_arrival_not_closed :
+    wfFrom (init 2) lateArrivalWitness = true ∧
+    1 ∈ (run (init 2) lateArrivalWitness).reported ∧
+    ownGet (run (init 2) lateArrivalWitness).env.owner 1 = some 1 ∧
+    ∀ h', EnvOnly h' → 1 ∈ (run (init 2) (lateArrivalWitness ++ h')).env.backend.openSet := by
+  refine ⟨by decide, by decide, by decide, ?_⟩
+  intro h' he
+  rw [run_append, envOnly_idle _ (by decide) h' he]
+  decide
+
+/-- The environment does not check that the SENDER of a handle owns it: a process that has given a
+resource away can still move its ownership with the stale copy it kept (here 0 gives r to 1, then
+hands the stale copy to 2: 1 loses r, 2 can use it). C14 as stated defines the owner as the last
+recipient, so this is within the property; it is recorded as an observation. -/
+theorem stale_sender_moves_ownership :
+    let h : List Event := [.start, .start, .start, .open 0, .send 0 1 (.res 1), .send 0 2 (.res 1)]
+    wfFrom (init 3) h = true ∧ ownGet (run (init 3) h).env.owner 1 = some 2 ∧
+    (step (run (init 3) h) (.use 1 1)).env.backend.executed = (run (init 3) h).env.backend.executed ∧
+    (step (run (init 3) h) (.use 2 1)).env.backend.executed
+      = (run (init 3) h).env.backend.executed ++ [(2, { kind := .fileRead, rid := 1 })] := by decide
+
+
+/-- F14 (found by the C14 harness). `no_close_while_owner_alive` needs its hypothesis: the
+environment closes whatever a `ProcessResults` reports as complete. The worker's
+`query_and_await` treats a *sleeping persistent* process (the REPL's process between two lines) as
+completed, so a process awaiting it makes the environment close the resources of a process that is
+alive and will be resumed. Witness: 0 opens r; a `ProcessResults` reports 0 although 0 has not
+terminated; r is closed; 0's next use of r reaches the backend and fails there (not found). -/
+def sleepingOwnerWitness : List Event := [.start, .start, .open 0, .awaitReport 1 0]
+
+theorem sleeping_owner_closed_witness :
+    handlesFrom (init 2) sleepingOwnerWitness = true ∧
+    livenessOk (run (init 2) [.start, .start, .open 0]) (.awaitReport 1 0) = false ∧
+    0 ∉ (run (init 2) sleepingOwnerWitness).terminated ∧
+    (run (init 2) sleepingOwnerWitness).env.backend.closeCalls = [1] ∧
+    (run (init 2) sleepingOwnerWitness).env.backend.openSet = [] ∧
+    (step (run (init 2) sleepingOwnerWitness) (.use 0 1)).env.out
+      = (run (init 2) sleepingOwnerWitness).env.out ++ [.effectCompletion 0 .err] := by decide
+
+/-! ## the co-location rule of handle_spawn reads the ownership map -/
+
+/-- If the first top-level resource among captures ++ [argument] is registered to a routed process,
+the child is placed on that process's worker (nested resources do not count; otherwise round-robin). -/
+theorem spawn_colocated (s : Sys) (caller : Pid) (caps : List Val) (arg : Val) (w : Wid)
+    (h : colocate s.env.owner s.env.router (caps ++ [arg]) = some w) :
+    Cmd.spawnProcess w s.env.nextPid ∈ (step s (.spawn caller caps arg)).env.out := by
+  simp only [step, handleSpawn, h, Option.getD_some]
+  split <;> simp
+
+theorem colocate_first (m : Own) (router : List (Pid × Wid)) (r : Rid) (o : Pid) (w : Wid) (rest : List Val)
+    (h1 : ownGet m r = some o) (h2 : routeGet router o = some w) :
+    colocate m router (.res r :: rest) = some w := by
+  simp [colocate, h1, h2]
+
+example :
+    let s := run (init 3) [.start, .start, .start, .open 1]
+    Cmd.spawnProcess 1 3 ∈ (step s (.spawn 0 [.other, .res 1] .other)).env.out ∧
+    -- nested: not considered, round-robin 3 % 3 = 0
+    Cmd.spawnProcess 0 3 ∈ (step s (.spawn 0 [.tuple [.res 1]] .other)).env.out := by decide
 
 end C14
